@@ -129,9 +129,13 @@ func (c *MemoryCache[MetadataT]) Get(key CacheKey) (*Entry[MetadataT], error) {
 	entry.meta.LastAccess = time.Now()
 	metrics.Global.Cache.CacheHits.Increment()
 
+	// Hand out a copy taken under the key lock: the caller reads it after the lock is released,
+	// while the stored metadata keeps being updated by other requests.
+	metaCopy := *entry.meta
+
 	return &Entry[MetadataT]{
 		Data:     &memoryReadSeekCloser{bytes.NewReader(entry.data)},
-		Metadata: entry.meta,
+		Metadata: &metaCopy,
 		Stale:    stale,
 	}, nil
 }
@@ -188,9 +192,11 @@ func (c *MemoryCache[MetadataT]) cacheInternal(key CacheKey, data io.Reader, exp
 	}
 	addCacheSize(&c.byteSize, int64(count))
 
+	metaCopy := *meta // the caller gets its own copy, see Get
+
 	return &Entry[MetadataT]{
 		Data:     &memoryReadSeekCloser{bytes.NewReader(dataBytes)},
-		Metadata: meta,
+		Metadata: &metaCopy,
 	}, nil
 }
 
@@ -269,5 +275,7 @@ func (c *MemoryCache[MetadataT]) GetMetadata(key CacheKey) (meta *EntryMetadata[
 	entry.meta.LastAccess = time.Now()
 	metrics.Global.Cache.CacheHits.Increment()
 
-	return entry.meta, stale, nil
+	metaCopy := *entry.meta // the caller gets its own copy, see Get
+
+	return &metaCopy, stale, nil
 }
